@@ -27,7 +27,7 @@ import (
 var embeddedConfigLogs = append([]byte{}, omniwitness.ConfigLogs...)
 
 var c17Files = []string{"logs.yaml", "logs_test.yaml"}
-var c17Nets = []string{"drop", "stall", "garbage:7", "status:500", "empty", "status:404", "status:403"}
+var c17Nets = []string{"drop", "stall", "garbage:7", "status:500", "empty", "status:404", "status:403", "othershard"}
 
 func c17Config(file string) ([]byte, error) {
 	if file == "logs.yaml" {
@@ -44,7 +44,7 @@ func init() {
 	register(&Scenario{
 		Prop:  "C17",
 		Level: "exploration",
-		Rule:  "finite: for each of the two shipped files (logs.yaml as embedded in the build, logs_test.yaml from the working tree) and each of 7 hostile networks (every host down, stalled past the timeout, serving garbage, 500, empty bodies, 404, 403) the real omniwitness.Main is booted in a synctest bubble with polling and the distributor enabled and run for 10 simulated minutes: it must not return or panic, and every entry with a feeder must issue at least one request to its configured host with the path its feeder type starts from; and, through the same loaders Main uses: every key parses, no two IDs collide, feeder types are known, URLs are well-formed with a supported scheme, rekor URLs carry treeID, the witness map and the feeder list name the same IDs. evaluations = entries x networks; every entry is covered in each run (exhaustive over entries); non-trivial = an entry with a feeder; distinct = (file, entry origin)",
+		Rule:  "finite: for each of the two shipped files (logs.yaml as embedded in the build, logs_test.yaml from the working tree) and each of 8 hostile networks (every host down, stalled past the timeout, serving garbage, 500, empty bodies, 404, 403, and well-formed answers that do not list the configured Rekor trees) the real omniwitness.Main is booted in a synctest bubble with polling and the distributor enabled and run for 10 simulated minutes, stopped, and booted once more in the same process: it must not return or panic, and every entry with a feeder must issue at least one request to its configured host with the path its feeder type starts from; and, through the same loaders Main uses: every key parses, no two IDs collide, feeder types are known, URLs are well-formed with a supported scheme, rekor URLs carry treeID, the witness map and the feeder list name the same IDs. evaluations = entries x networks; every entry is covered in each run (exhaustive over entries); non-trivial = an entry with a feeder; distinct = (file, entry origin)",
 		Total: func(tier string) uint64 { return uint64(len(c17Files) * len(c17Nets)) },
 		Gen: func(r *Rng, tier string, n uint64) *Plan {
 			p := &Plan{Scenario: "config"}
@@ -148,7 +148,9 @@ func init() {
 			}
 			// dynamic part: boot the real Main on this configuration against a hostile network
 			var infra string
-			func() {
+			// twice in the same process (an operator's supervisor, or a test harness, starts Main again after it was stopped):
+			// whatever the first start did to process-wide state, the shipped configuration still loads the second time
+			boot := func() {
 				defer func() {
 					if x := recover(); x != nil {
 						infra = fmt.Sprintf("bubble ended abnormally: %v", x)
@@ -163,9 +165,19 @@ func init() {
 					omniwitness.ConfigLogs = raw
 					sn := NewSimNet()
 					sn.Default = netKind
+					if netKind == "othershard" {
+						sn.Default = ""
+					}
 					for _, l := range cfg.Logs {
 						if u, err := url.Parse(l.URL); err == nil {
-							sn.Hosts[u.Host] = http.HandlerFunc(func(rw http.ResponseWriter, rq *http.Request) { rw.Write([]byte("hello")) })
+							sn.Hosts[u.Host] = http.HandlerFunc(func(rw http.ResponseWriter, rq *http.Request) {
+								if netKind == "othershard" && rq.URL.Path == "/api/v1/log" {
+									// a Rekor that answers properly but, for now, does not list the configured trees (a lagging replica)
+									rw.Write([]byte(`{"signedTreeHead":"other.example/log\n1\nAAAA\n\n\u2014 k AAAAAAAA\n","treeID":"999","treeSize":1,"rootHash":"00","inactiveShards":[]}`))
+									return
+								}
+								rw.Write([]byte("hello"))
+							})
 						}
 					}
 					sn.Hosts["distributor.example"] = http.NotFoundHandler()
@@ -239,7 +251,14 @@ func init() {
 					time.Sleep(2 * time.Minute)
 					synctest.Wait()
 				})
-			}()
+			}
+			boot()
+			if infra == "" && len(out.Viol) == 0 {
+				boot()
+				for i := range out.Viol {
+					out.Viol[i].Detail = "second start in the same process: " + out.Viol[i].Detail // (same signature as at a first start: state left in the process makes later first starts fail the same way)
+				}
+			}
 			if infra != "" {
 				out.Infra = []string{infra}
 			}
